@@ -1,2 +1,271 @@
-//! harnesses mounted into the crate (see DESIGN.md 3.1)
+//! C13 (TinyLFU step), C01 (SampledLFU step lemmas, room arithmetic). Child of `crate::policy`.
 #![allow(dead_code, unused_imports)]
+use super::*;
+use crate::verif_env::{hm_from, HS};
+use crate::verif_nd::{self as nd, harness, vassert, vcover};
+
+pub(crate) const COST_MAX: i64 = 1 << 40;
+
+// `policy::sync` is a private module: re-export what the cache-level harnesses need
+#[cfg(feature = "sync")]
+pub(crate) use super::sync::verif_harness as psync;
+#[cfg(feature = "sync")]
+pub(crate) use super::sync::PolicyProcessor;
+
+/// SampledLFU holding exactly the given entries (I-P holds by construction)
+pub(crate) fn slfu_from(ents: [Option<(u64, i64)>; 3], max_cost: i64) -> SampledLFU<HS> {
+    SampledLFU {
+        samples: DEFAULT_SAMPLES,
+        max_cost: AtomicI64::new(max_cost),
+        used: ghost_sum(&ents),
+        key_costs: hm_from(ents),
+        metrics: Arc::new(Metrics::Noop),
+    }
+}
+
+// ---------------------------------------------------------------------------------- TinyLFU
+
+fn any_row(w: usize) -> crate::sketch::CountMinRow {
+    crate::sketch::verif_harness::any_row(w)
+}
+
+/// arbitrary TinyLFU satisfying I-T (w < samples)
+pub(crate) fn any_tinylfu(row_bytes: usize, dk_exp: u64) -> TinyLFU {
+    let locs = nd::any_u64_in(1, 3);
+    let samples = nd::any_usize_in(1, 1 << 32);
+    let w = nd::any_usize();
+    nd::assume(w < samples);
+    TinyLFU {
+        ctr: crate::sketch::verif_harness::any_sketch(row_bytes),
+        doorkeeper: crate::bbloom::verif_harness::any_bloom(dk_exp, locs),
+        samples,
+        w,
+    }
+}
+
+fn tinylfu_step(row_bytes: usize, dk_exp: u64) {
+    let mut t = any_tinylfu(row_bytes, dk_exp);
+    let k = nd::any_u64();
+    let g = nd::any_u64();
+    let ek = t.estimate(k);
+    let eg = t.estimate(g);
+    let ck = t.ctr.estimate(k);
+    let cg = t.ctr.estimate(g);
+    let dk = t.doorkeeper.contains(k);
+    let w0 = t.w;
+    vassert!(ek >= 0 && ek <= 16 && eg >= 0 && eg <= 16, "estimates are in [0,16]");
+    if nd::any_bool() {
+        t.increment(k);
+        let reset_due = w0 + 1 >= t.samples;
+        if !reset_due {
+            vassert!(t.w == w0 + 1, "no reset: the sample counter advances by one");
+            vassert!(t.estimate(k) == if ek < 16 { ek + 1 } else { 16 }, "recording a key raises its estimate by one, saturating at 15+1, never wrapping");
+            vassert!(t.estimate(g) >= eg && t.estimate(g) <= eg + 1, "recording a key never lowers another key's estimate");
+            vcover!(ek == 16, "saturated at 16");
+            vcover!(!dk, "first sighting goes to the doorkeeper");
+            vcover!(dk && ck == 3, "counter incremented");
+        } else {
+            vassert!(t.w == 0, "after samples recorded accesses the sample counter restarts");
+            vassert!(!t.doorkeeper.contains(g) && !t.doorkeeper.contains(k), "aging reset empties the doorkeeper");
+            let ck_after_inc = if dk { if ck < 15 { ck + 1 } else { 15 } } else { ck };
+            vassert!(t.estimate(k) == ck_after_inc >> 1, "aging reset halves the (post-increment) counters");
+            vassert!(t.estimate(g) <= (cg + 1) >> 1 && t.estimate(g) >= cg >> 1, "aging reset halves every other estimate");
+            vcover!(ck == 15 && dk, "reset of a saturated counter");
+            vcover!(t.samples == 1, "samples == 1 resets on every access");
+        }
+    } else {
+        t.clear();
+        vassert!(t.estimate(k) == 0 && t.estimate(g) == 0, "clear(): every key estimates zero");
+        vassert!(t.w == 0, "clear(): sample counter restarts");
+        vcover!(ek == 16, "clear of a saturated key");
+    }
+    vassert!(t.w < t.samples, "I-T preserved: w < samples");
+}
+
+harness! {
+    [kani::unwind(10)]
+    fn c13_tinylfu_step_w1() {
+        tinylfu_step(1, 6);
+    }
+}
+
+harness! {
+    [kani::unwind(10)]
+    fn c13_tinylfu_step_w4() {
+        tinylfu_step(4, 9);
+    }
+}
+
+harness! {
+    [kani::unwind(10)]
+    fn c13_tinylfu_batch() {
+        // cleared estimator, batch of 4 hashes (as handed over by the ring buffer)
+        let mut t = TinyLFU {
+            ctr: crate::sketch::verif_harness::any_sketch(4),
+            doorkeeper: crate::bbloom::verif_harness::any_bloom(9, 2),
+            samples: nd::any_usize_in(5, 1 << 32),
+            w: 0,
+        };
+        t.clear();
+        let k = nd::any_u64();
+        let b = [nd::any_u64(), nd::any_u64(), nd::any_u64(), nd::any_u64()];
+        let mut n = 0i64;
+        let mut i = 0;
+        while i < 4 {
+            if b[i] == k {
+                n += 1;
+            }
+            i += 1;
+        }
+        t.increments(vec![b[0], b[1], b[2], b[3]]);
+        vassert!(t.estimate(k) >= n, "after a batch is applied the estimate is at least the number of recorded accesses");
+        vassert!(t.w == 4, "every key of the batch is counted toward the aging period");
+        vcover!(n == 4, "same key four times");
+        vcover!(n == 0 && t.estimate(k) > 0, "collision");
+    }
+}
+
+// ---------------------------------------------------------------------------------- SampledLFU
+
+/// Arbitrary SampledLFU with up to 3 residents in arbitrary slots satisfying I-P
+/// (`used == sum of key_costs`, costs in [0, 2^40]); max_cost arbitrary in [-2^40, 2^40].
+/// Returns the structure and the ghost copy of its entries.
+pub(crate) fn any_slfu(n_max: usize) -> (SampledLFU<HS>, [Option<(u64, i64)>; 3]) {
+    let mut ents: [Option<(u64, i64)>; 3] = [None, None, None];
+    let mut sum = 0i64;
+    let mut i = 0;
+    while i < 3 {
+        if i < n_max && nd::any_bool() {
+            let k = nd::any_u64();
+            let c = nd::any_i64_in(0, COST_MAX);
+            let mut j = 0;
+            while j < i {
+                if let Some((kj, _)) = ents[j] {
+                    nd::assume(kj != k);
+                }
+                j += 1;
+            }
+            ents[i] = Some((k, c));
+            sum += c;
+        }
+        i += 1;
+    }
+    let mc = nd::any_i64_in(-COST_MAX, COST_MAX);
+    let s = SampledLFU {
+        samples: DEFAULT_SAMPLES,
+        max_cost: AtomicI64::new(mc),
+        used: sum,
+        key_costs: hm_from(ents),
+        metrics: Arc::new(Metrics::Noop),
+    };
+    (s, ents)
+}
+
+pub(crate) fn ghost_get(e: &[Option<(u64, i64)>; 3], k: u64) -> Option<i64> {
+    let mut i = 0;
+    while i < 3 {
+        if let Some((kk, c)) = e[i] {
+            if kk == k {
+                return Some(c);
+            }
+        }
+        i += 1;
+    }
+    None
+}
+
+pub(crate) fn ghost_sum(e: &[Option<(u64, i64)>; 3]) -> i64 {
+    let mut s = 0;
+    let mut i = 0;
+    while i < 3 {
+        if let Some((_, c)) = e[i] {
+            s += c;
+        }
+        i += 1;
+    }
+    s
+}
+
+/// I-P on the real structure, with the residents enumerated through the real map
+pub(crate) fn slfu_sum<S: BuildHasher + Clone + 'static>(s: &SampledLFU<S>) -> (i64, usize, bool) {
+    let mut sum = 0i64;
+    let mut n = 0;
+    let mut nonneg = true;
+    for (_, c) in s.key_costs.iter() {
+        sum += *c;
+        n += 1;
+        if *c < 0 {
+            nonneg = false;
+        }
+    }
+    (sum, n, nonneg)
+}
+
+harness! {
+    [kani::unwind(5)]
+    fn c01_slfu_step() {
+        let (mut s, ents) = any_slfu(3);
+        let n0 = s.key_costs.len();
+        let k = nd::any_u64();
+        let g = nd::any_u64();
+        nd::assume(g != k);
+        let c = nd::any_i64_in(0, COST_MAX);
+        let before_k = ghost_get(&ents, k);
+        let before_g = ghost_get(&ents, g);
+        let used0 = s.used;
+        let op = nd::any_u8_in(0, 3);
+        if op == 0 {
+            // increment is only ever called for a key that is not resident (add() checks update() first)
+            nd::assume(before_k.is_none() && n0 < 3);
+            s.increment(k, c);
+            vassert!(s.used == used0 + c, "increment charges exactly the given cost");
+            vassert!(s.key_costs.get(&k) == Some(&c), "increment records the per-entry charge");
+            vcover!(n0 == 2, "third resident added");
+        } else if op == 1 {
+            let r = s.remove(&k);
+            vassert!(r == before_k, "remove returns the charge of the removed entry, if any");
+            vassert!(s.used == used0 - before_k.unwrap_or(0), "remove releases exactly that entry's charge");
+            vassert!(!s.contains(&k), "removed key is no longer charged");
+            vcover!(before_k.is_some(), "removed a resident");
+            vcover!(before_k.is_none(), "removed an absent key");
+        } else if op == 2 {
+            let r = s.update(&k, c);
+            vassert!(r == before_k.is_some(), "update reports whether the key is resident");
+            if r {
+                vassert!(s.used == used0 + c - before_k.unwrap(), "update re-charges the difference");
+                vassert!(s.key_costs.get(&k) == Some(&c), "update replaces the per-entry charge");
+            } else {
+                vassert!(s.used == used0 && !s.contains(&k), "update of an absent key changes nothing");
+            }
+            vcover!(r && c < before_k.unwrap(), "cost lowered");
+            vcover!(r && c > before_k.unwrap(), "cost raised");
+        } else {
+            s.clear();
+            vassert!(s.used == 0 && s.key_costs.len() == 0, "clear releases everything");
+            vcover!(n0 == 3, "clear of three residents");
+        }
+        if op != 3 {
+            vassert!(s.key_costs.get(&g).copied() == before_g, "other entries' charges are untouched");
+        }
+        let (sum, _n, nonneg) = slfu_sum(&s);
+        vassert!(s.used == sum, "I-P: charged total equals the sum of the per-entry charges");
+        vassert!(nonneg, "I-P: every charge is non-negative");
+    }
+}
+
+harness! {
+    [kani::unwind(5)]
+    fn c01_room_arith() {
+        let (s, _ents) = any_slfu(3);
+        let c = nd::any_i64_in(0, COST_MAX);
+        let mc = s.get_max_cost();
+        vassert!((s.room_left(c) >= 0) == (s.used + c <= mc), "room_left(c) >= 0 iff used + c <= max_cost");
+        vassert!(s.room_left(c) == mc - s.used - c, "room_left is max_cost - (used + cost)");
+        let m2 = nd::any_i64_in(-COST_MAX, COST_MAX);
+        s.update_max_cost(m2);
+        vassert!(s.get_max_cost() == m2, "update_max_cost takes effect immediately");
+        vassert!((s.room_left(c) >= 0) == (s.used + c <= m2), "the next room computation uses the new max_cost");
+        vcover!(m2 < mc && s.used > m2, "max_cost lowered below the charged total");
+        vcover!(s.room_left(c) == 0, "exact fit");
+    }
+}
